@@ -88,7 +88,7 @@ where
         path
     };
 
-    let mut check = |state: &M::State,
+    let check = |state: &M::State,
                      fp: u64,
                      parents: &HashMap<u64, Option<(u64, M::Action)>>,
                      violations: &mut Vec<Counterexample<M>>,
